@@ -170,7 +170,10 @@ def run_cert(sc, root, helper):
         del cert["csr_digest"]
     if sc["attrs"]:
         cert["subject_attributes"] = sc["attrs"]
-    obs = flow.run_scenario(d, [cert], helper=helper, timeout=60)
+    # every third CA spells the DNS names of ITS order objects in upper case (a CA is free to): the CSR
+    # must carry the configured names whatever the server echoes
+    ca_opts = {"order_ident_case": "upper"} if sc["idx"] % 3 == 1 else None
+    obs = flow.run_scenario(d, [cert], helper=helper, timeout=60, ca_opts=ca_opts)
     posts = [h for h in obs["hooks"] if h["name"] == "rec-post-operation"]
     res = {"sc": sc, "completed": bool(posts), "rc": obs["rc"], "old_pub": old_pub, "stderr": obs["stderr"][-400:]}
     if posts:
